@@ -96,6 +96,8 @@ func (e *Envelope) Sign(key Key) error {
 		return err
 	}
 
+	// keep the signatures the envelope already carries
+	env.Signatures = append(e.envelope.Signatures, env.Signatures...)
 	e.envelope = env
 	return nil
 }
